@@ -443,6 +443,7 @@ class PathModel:
         self.defaults = raw.get("path_defaults", {})
         self.tokens = {t: parse_template(tpl) for t, tpl in self.templates.items()}
         self.types = list(self.templates.keys())
+        self._strict = {}
 
     def has_path(self, t: str) -> bool:
         return t in self.templates
@@ -491,6 +492,46 @@ class PathModel:
                     return None
                 out += v
         return out
+
+    def strict_regex(self, t: str):
+        """Independent strict parser of type t's path template: literals escaped, whole-string match,
+        repeated placeholders must carry the same text (back-references)."""
+        rx = self._strict.get(t)
+        if rx is None:
+            seen = {}
+            pat = ""
+            for tok in self.tokens[t]:
+                if tok[0] == "lit":
+                    pat += re.escape(tok[1])
+                else:
+                    _, key, expr = tok
+                    if key in seen:
+                        pat += f"(?P=g{seen[key]})"
+                    else:
+                        seen[key] = len(seen)
+                        pat += f"(?P<g{seen[key]}>(?:{expr if expr is not None else '[^/]*'}))"
+            rx = (re.compile(pat, re.DOTALL), {v: k for k, v in seen.items()})
+            self._strict[t] = rx
+        return rx
+
+    def parse(self, path: str):
+        """(type, sid fields) of the first template that strictly matches the path and whose values,
+        mapped back, fit the Sid template of that type; else (None, None)."""
+        for t in self.types:
+            rx, names = self.strict_regex(t)
+            mt = rx.fullmatch(path)
+            if not mt:
+                continue
+            fields = {}
+            for idx, key in names.items():
+                fields[key] = self.unmap_value(t, key, mt.group(f"g{idx}"))
+            if t in self.sid.parsed and self.sid.types_for_fields(fields) and t in self.sid.types_for_fields(fields):
+                if self.render(t, fields) == path:
+                    return t, fields
+        return None, None
+
+    def conforms(self, path: str) -> bool:
+        return self.parse(path)[0] is not None
 
     def literal_parts(self) -> List[str]:
         parts = set()
